@@ -205,4 +205,15 @@ def rule_oserror(ctx):
     rule_oserror_stays_oserror(ctx)
 
 
-RULES = [rule_main, rule_process, rule_until, rule_oserror]
+def rule_validate_rows(ctx):
+    """
+    O18.5: Reader.validate_rows (what the command line runs per file) reads the whole file whatever the limit, so an
+    unreadable file or a broken container is noticed (exit 3 / 1) even with --until 0, and judges rows like rows().
+    """
+    from . import protocol
+
+    ctx.res.minimum("O18.5", 1)
+    protocol.reader_rows_table(ctx, "O18.5", {"window", "modes", "faults"}, "validate_rows")
+
+
+RULES = [rule_main, rule_process, rule_until, rule_oserror, rule_validate_rows]
